@@ -27,7 +27,7 @@ Inv_DepthLimit       == DepthLimit(shape)
 Inv_ModeIndependence == ModeIndependence(shape)
 Inv_EvmOnlyInEthLane == EvmOnlyInEthLane(shape)
 
-EthElemShape == S(<<EthElem>>, "none", FALSE, FALSE, FALSE, FALSE, FALSE, FALSE, "eq", "eq", "check")
+EthElemShape == S(<<EthElem>>, "none", FALSE, FALSE, FALSE, FALSE, FALSE, "zero", "eq", "eq", "check")
 AllReasons == {r[2] : r \in Range(EthReasons(EthElemShape)) \cup Range(CosmosReasons(EthElemShape))}
 
 Classes == {<<Lane(ShapeSeq[i]), Verdict(ShapeSeq[i])>> : i \in 1..Len(ShapeSeq)}
